@@ -484,35 +484,36 @@ type ModItem struct {
 }
 
 type Contract struct {
-	Key        string // function key
-	KeyKind    string // func iface extern trusted
-	Tags       []string
-	Requires   []*Clause
-	Ensures    []*Clause
-	Raises     *Clause // raises when E
-	NoRaise    bool
-	NoReturn   bool
-	Inline     bool
-	Pure       bool
-	Opaque     bool // body not verified (trusted/extern/outside-subset)
-	Outside    string
-	Modifies   []ModItem
-	HasMod     bool
-	Loops      map[string]*LoopSpec
-	Asserts    []*Clause
-	HasFrom    bool // has a from@ clause: only the tail of the function is verified
-	Mode       string
-	MayPanic   []string
-	Bounded    bool
-	File, Line string
-	NoSafe     bool // skip SAFE obligations (must be listed as assumption)
-	Unroll     int
-	ResultName string
-	Implements string
-	Logged     bool     // calls are appended to the ghost call log
-	LogPre     []*Expr  // extra values recorded from the pre-state (positions 10, 11, ...)
-	LogPost    []*Expr  // extra values recorded from the post-state (result positions 10, 11, ...)
-	Cuts       []string // source-text anchors: paths reaching such a line are not verified (listed)
+	Key         string // function key
+	KeyKind     string // func iface extern trusted
+	Tags        []string
+	Requires    []*Clause
+	Ensures     []*Clause
+	Raises      *Clause // raises when E
+	NoRaise     bool
+	NoReturn    bool
+	Inline      bool
+	Pure        bool
+	Opaque      bool // body not verified (trusted/extern/outside-subset)
+	Outside     string
+	Modifies    []ModItem
+	HasMod      bool
+	Loops       map[string]*LoopSpec
+	Asserts     []*Clause
+	HasFrom     bool // has a from@ clause: only the tail of the function is verified
+	OnlyAsserts bool // only the assert@ clauses are obligations; everything else about the function is unverified
+	Mode        string
+	MayPanic    []string
+	Bounded     bool
+	File, Line  string
+	NoSafe      bool // skip SAFE obligations (must be listed as assumption)
+	Unroll      int
+	ResultName  string
+	Implements  string
+	Logged      bool     // calls are appended to the ghost call log
+	LogPre      []*Expr  // extra values recorded from the pre-state (positions 10, 11, ...)
+	LogPost     []*Expr  // extra values recorded from the post-state (result positions 10, 11, ...)
+	Cuts        []string // source-text anchors: paths reaching such a line are not verified (listed)
 }
 
 type Lemma struct {
@@ -565,10 +566,10 @@ var keyLine = regexp.MustCompile(`^(func|iface|extern|trusted|dyn)\s+(.+?)\s*(\[
 var tagsRe = regexp.MustCompile(`^(\w[\w-]*)\[([A-Z0-9, ]+)\]`)
 
 var clauseKeywords = map[string]bool{"func": true, "iface": true, "extern": true, "trusted": true, "dyn": true, "define": true,
-	"lemma": true, "requires": true, "ensures": true, "assumes": true, "raises": true, "noraise": true, "noreturn": true,
+	"lemma": true, "requires": true, "ensures": true, "assumes": true, "entry-assumes": true, "raises": true, "noraise": true, "noreturn": true,
 	"modifies": true, "loop": true, "assert": true, "mode": true, "inline": true, "pure": true,
 	"outside-subset": true, "assume": true, "may-panic": true, "nosafe": true, "end": true, "bounded": true,
-	"abstract": true, "implements": true, "cut": true, "uninterp": true, "axiom": true, "logged": true, "constglobal": true, "immutable": true, "initvalue": true, "let": true, "from": true}
+	"abstract": true, "implements": true, "cut": true, "uninterp": true, "axiom": true, "logged": true, "constglobal": true, "immutable": true, "initvalue": true, "let": true, "from": true, "only-asserts": true}
 
 func splitTags(s string) []string {
 	s = strings.Trim(s, "[] ")
@@ -843,11 +844,16 @@ func (db *SpecDB) parseFile(fname, prefix, data string) {
 				continue
 			}
 			switch kw {
-			case "requires", "ensures", "assumes":
+			case "requires", "ensures", "assumes", "entry-assumes":
 				// assumes E: a postcondition that callers may use but that is NOT proved for the body (listed as an assumption)
-				assumed := kw == "assumes"
-				if assumed {
+				// entry-assumes E: a condition assumed to hold when the function is entered (a system invariant) that is NOT
+				// checked at call sites (listed as an assumption)
+				assumed := kw == "assumes" || kw == "entry-assumes"
+				if kw == "assumes" {
 					kw = "ensures"
+				}
+				if kw == "entry-assumes" {
+					kw = "requires"
 				}
 				label := ""
 				if strings.HasPrefix(rest, "\"") {
@@ -857,8 +863,11 @@ func (db *SpecDB) parseFile(fname, prefix, data string) {
 					}
 				}
 				cl := &Clause{Kind: kw, E: pe(rest), Tags: ctags, Label: label, Line: loc, Assumed: assumed}
-				if assumed {
+				if assumed && kw == "ensures" {
 					db.Assumes = append(db.Assumes, fmt.Sprintf("%s: postcondition assumed at call sites, not proved for the body: %s", cur.Key, rest))
+				}
+				if assumed && kw == "requires" {
+					db.Assumes = append(db.Assumes, fmt.Sprintf("%s: entry condition assumed for the body, not checked at call sites (system invariant): %s", cur.Key, rest))
 				}
 				if kw == "requires" {
 					cur.Requires = append(cur.Requires, cl)
@@ -964,6 +973,9 @@ func (db *SpecDB) parseFile(fname, prefix, data string) {
 				default:
 					errf("bad loop clause kind %q", f[1])
 				}
+			case "only-asserts":
+				cur.OnlyAsserts = true
+				db.Assumes = append(db.Assumes, fmt.Sprintf("%s: ONLY the assert@ clauses and the loop invariants they rest on are verified (%s); preconditions of its callees, implicit panics and its frame are not", cur.Key, rest))
 			case "from":
 				// from@"anchor" E : verification of this function starts at the anchored statement, in an arbitrary state
 				// satisfying E; the code before it (and every exit not passing through it) is NOT verified
